@@ -49,6 +49,7 @@ def main():
     ap.add_argument("--patch")
     ap.add_argument("--name")
     ap.add_argument("--skip-confirm", action="store_true")
+    ap.add_argument("--refactor", action="store_true", help="the change is a behaviour-preserving refactoring: the demo must pass with and without it, and every check must stay silent; stored under /verif/refactors/")
     ap.add_argument("--recheck", action="store_true", help="re-run the checks against the stored patch (worktree gone); keeps first_run_caught")
     a = ap.parse_args()
     wt = "/tmp/seed/" + a.id
@@ -57,7 +58,7 @@ def main():
     meta = {"breaks_property": pid, "scratch_worktree": wt, "round": 1 + (ord(a.id[3]) - ord("a") if len(a.id) > 3 else 0)}
     if a.recheck:
         a.skip_confirm = True
-        a.patch = os.path.join(VERIF, "seeded", name, "patch.diff")
+        a.patch = os.path.join(VERIF, "refactors" if a.refactor else "seeded", name, "patch.diff")
         meta = {}
     if not a.skip_confirm:
         rc, out = sh("cargo build --offline 2>&1 | tail -2", wt, {"CARGO_TARGET_DIR": wt + "/target"})
@@ -75,7 +76,10 @@ def main():
             sh("git apply /tmp/seed/_%s.src.diff" % a.id, wt)
         meta["demo_without_change"] = {"rc": rc2, "results": m2}
         meta["suite_without_change"] = {"passed": p0, "failed": f0, "failed_tests": failed0}
-        ok = (p == 30 and failed == ["model::tests::multiple_models", "tests::bonsai_multi"] and rc1 != 0 and rc2 == 0)
+        if a.refactor:
+            ok = (p == 30 and failed == ["model::tests::multiple_models", "tests::bonsai_multi"] and rc1 == 0 and rc2 == 0)
+        else:
+            ok = (p == 30 and failed == ["model::tests::multiple_models", "tests::bonsai_multi"] and rc1 != 0 and rc2 == 0)
         meta["confirmed"] = bool(ok)
         print("confirm:", json.dumps({k: meta[k] for k in ("build_with_change", "suite_with_change", "demo_with_change", "demo_without_change", "confirmed")}))
         if not ok:
@@ -104,7 +108,10 @@ def main():
     meta["checks_run"] = a.props.split(",")
     meta["checks_fired"] = fired
     meta["caught_by_own_property_check"] = pid in fired and "violations" in fired.get(pid, {})
-    dst = os.path.join(VERIF, "seeded", name)
+    dst = os.path.join(VERIF, "refactors" if a.refactor else "seeded", name)
+    if a.refactor:
+        meta["kind"] = "behaviour-preserving refactoring: every check must stay silent"
+        meta["false_alarms"] = sorted(fired)
     os.makedirs(dst, exist_ok=True)
     if not a.recheck:
         shutil.copy(patch, os.path.join(dst, "patch.diff"))
